@@ -238,6 +238,8 @@ pub struct Case {
     pub pk: Option<usize>,
     pub pkdecl: PkDecl,
     pub ops: Vec<Op>,
+    /// write history of a second table `u` with the same definition (joins); empty = no table u
+    pub ops2: Vec<Op>,
     pub queries: Vec<Query>,
     pub scans: Vec<ScanReq>,
 }
@@ -292,7 +294,11 @@ impl Case {
     }
 
     pub fn op_sql(&self, op: &Op) -> String {
-        match op {
+        self.op_sql_on(op, "t")
+    }
+
+    pub fn op_sql_on(&self, op: &Op, table: &str) -> String {
+        let s = match op {
             Op::Ins(rows) => {
                 let rs: Vec<String> = rows
                     .iter()
@@ -308,7 +314,8 @@ impl Case {
                 sql_lit(b)
             ),
             Op::Compact => "-- one compaction pass".to_string(),
-        }
+        };
+        s.replace("insert into t ", &format!("insert into {table} ")).replace("delete from t ", &format!("delete from {table} "))
     }
 
     /// The case as one s-expression line (everything the runner needs).
@@ -318,8 +325,7 @@ impl Case {
             .iter()
             .map(|c| format!("({} {})", c.ty.tag(), c.nullable))
             .collect();
-        let ops: Vec<String> = self
-            .ops
+        let ser = |ops: &Vec<Op>| -> Vec<String> { ops
             .iter()
             .map(|o| match o {
                 Op::Ins(rows) => format!(
@@ -332,7 +338,9 @@ impl Case {
                 Op::Del(c, a, b) => format!("(del {} {} {})", c, canon_value(a), canon_value(b)),
                 Op::Compact => "(compact)".to_string(),
             })
-            .collect();
+            .collect() };
+        let ops = ser(&self.ops);
+        let ops2 = ser(&self.ops2);
         let qs: Vec<String> = self
             .queries
             .iter()
@@ -354,7 +362,7 @@ impl Case {
             .collect();
         let scans: Vec<String> = self.scans.iter().map(scan_sexp).collect();
         format!(
-            "(case {} (mode {}) (block {}) (cols {}) (pk {}) (pkdecl {}) (ops {}) (queries {}) (scans {}))",
+            "(case {} (mode {}) (block {}) (cols {}) (pk {}) (pkdecl {}) (ops {}) (queries {}) (scans {}) (ops2 {}))",
             self.id,
             if self.nobg { "nobg" } else { "bg" },
             self.block,
@@ -367,7 +375,8 @@ impl Case {
             },
             ops.join(" "),
             qs.join(" "),
-            scans.join(" ")
+            scans.join(" "),
+            ops2.join(" ")
         )
     }
 
@@ -417,6 +426,22 @@ impl Case {
                 }
             })
             .collect();
+        let ops2: Vec<Op> = f("ops2")
+            .iter()
+            .map(|o| {
+                let l = o.as_list().unwrap();
+                match atom(&l[0]).as_str() {
+                    "ins" => Op::Ins(
+                        l[1..]
+                            .iter()
+                            .map(|r| r.as_list().unwrap().iter().map(|v| parse_val(&atom(v))).collect())
+                            .collect(),
+                    ),
+                    "compact" => Op::Compact,
+                    _ => Op::Del(atom(&l[1]).parse().unwrap(), parse_val(&atom(&l[2])), parse_val(&atom(&l[3]))),
+                }
+            })
+            .collect();
         let queries = f("queries")
             .iter()
             .map(|q| {
@@ -444,7 +469,7 @@ impl Case {
             })
             .collect();
         let scans = f("scans").iter().map(scan_of_sexp).collect();
-        Case { id, nobg, block, cols, pk, pkdecl, ops, queries, scans }
+        Case { id, nobg, block, cols, pk, pkdecl, ops, ops2, queries, scans }
     }
 }
 
@@ -633,6 +658,21 @@ pub fn run_case(c: &Case, workdir: &str) -> (String, String) {
         "(lay {})",
         lay.iter().map(|(id, rows)| format!("(rs {} {})", id, rows.join(" "))).collect::<Vec<_>>().join(" ")
     );
+    // second table (joins): same definition, its own write history (ops2 never compacts)
+    if !c.ops2.is_empty() {
+        let o = d.sql(&c.create_sql().replacen("create table t(", "create table u(", 1));
+        if o.class() != "ok" {
+            notes.push(format!("create-u:{}", o.class()));
+        }
+        for op in &c.ops2 {
+            if !matches!(op, Op::Compact) {
+                let o = d.sql(&c.op_sql_on(op, "u"));
+                if o.class() != "ok" {
+                    notes.push(format!("op-u:{}", o.class()));
+                }
+            }
+        }
+    }
     // queries
     let mut qreq = vec![];
     let mut qobs = vec![];
